@@ -259,7 +259,7 @@ def byte_at(I, s, idx):
         elif isinstance(seg, sb.Atom) and seg.kind in ("hex", "b64", "dec"):
             n = SBytes((seg,)).length()
             if is_sym(n):
-                return "ascii" if True else None
+                return None
             if idx < pos + n:
                 return "ascii"
         else:
@@ -276,7 +276,7 @@ def check_char_boundary(I, s, idx, what="byte index"):
     if idx == 0 or (not is_sym(ln) and idx == ln):
         return
     b = byte_at(I, s, idx)
-    if b is None or b == "ascii":
+    if b is None or isinstance(b, str):
         return
     if isinstance(b, int):
         if (b & 0xC0) == 0x80:
@@ -298,7 +298,7 @@ def _is_boundary(I, s, idx):
     b = byte_at(I, s, idx)
     if b is None:
         raise Inconclusive("char boundary inside opaque text")
-    if b == "ascii":
+    if isinstance(b, str):
         return True
     if isinstance(b, int):
         return (b & 0xC0) != 0x80
